@@ -5744,7 +5744,8 @@ class CodegenCtx:
         elif literal.result_type() == OutputStorageType.BOOL:
             return "true" if literal.get_literal_result() else "false"
         elif literal.result_type() == OutputStorageType.INT:
-            return str(literal.get_literal_result())
+            # (a constant beyond the signed 64-bit range is only valid C with an unsigned suffix)
+            return str(literal.get_literal_result()) + ("u" if literal.get_literal_result() >= (1 << 63) else "")
         elif literal.result_type() == OutputStorageType.STR:
             return '"{}"'.format(self._escape_string(literal.get_literal_result()))
         else:
@@ -5764,6 +5765,31 @@ class CodegenCtx:
                 return str(out_expr.effective_string_size())
             else:
                 return str(out_expr.str_size)
+
+    def _constant_value_of(self, intexpr: IntegerExpr):
+        """
+        The value of an operand that is known at compile time (None if it is not, or cannot be computed)
+        """
+
+        if not intexpr.is_literal():
+            return None
+        try:
+            value = intexpr.get_literal_result()
+        except (ArithmeticError, ValueError):
+            return None
+        return value if type(value) is int else None
+
+    def _check_constant_fits(self, intexpr: IntegerExpr, target: OutputStorage):
+        """
+        A constant stored into an integer output has to be representable in it (the C compiler refuses a constant that is not)
+        """
+
+        constant = self._constant_value_of(intexpr)
+        if constant is None or target.type != OutputStorageType.INT:
+            return
+        bits = 8 * (target.int_width or 4)
+        if not (-(1 << (bits - 1)) <= constant < (1 << (bits - 1)) if target.int_signed else 0 <= constant < (1 << bits)):
+            raise IllegalIntExpr(f"Constant {constant} does not fit output {target.name}", intexpr)
 
     def _generate_code_for_int_expr(self, intexpr: IntegerExpr, ctx: IntegerExprUseContext, out_expr: OutputStorage=None):
         """
@@ -5813,6 +5839,8 @@ class CodegenCtx:
         elif isinstance(intexpr, MulIntegerExpr):
             result = f"({self._generate_code_for_int_expr(intexpr.children[0], ctx, out_expr)})"
             for child, operator in zip(intexpr.children[1:], intexpr.divide[1:]):
+                if operator != MulIntegerExprOp.MUL and self._constant_value_of(child) == 0:
+                    raise IllegalIntExpr("Division by zero", intexpr) # (the C compiler would refuse it too)
                 result += " "
                 result += operator.value
                 result += " "
@@ -5838,6 +5866,10 @@ class CodegenCtx:
                 result += f"({self._generate_code_for_int_expr(child, ctx, out_expr)})"
             return result
         elif isinstance(intexpr, BitShiftIntegerExpr):
+            shift_count = self._constant_value_of(intexpr.right)
+            widest_operand = 64 if any(isinstance(x, OutIntegerExpr) and x.ref.int_width == 8 for x in intexpr.left.all_children()) else 32
+            if shift_count is not None and not 0 <= shift_count < widest_operand:
+                raise IllegalIntExpr(f"Shift count out of range (0 to {widest_operand - 1})", intexpr) # (undefined in C, and refused by the compiler)
             return f"({self._generate_code_for_int_expr(intexpr.left, ctx, out_expr)}) {'<<' if intexpr.towards_left else '>>'} ({self._generate_code_for_int_expr(intexpr.right, ctx, out_expr)})"
         else:
             raise NotImplementedError("unsupported intexpr type", intexpr)
@@ -5897,6 +5929,7 @@ class CodegenCtx:
             result.add(f"return {self.program_name.upper()}_YIELD_{action.result_code};")
         elif isinstance(action, SetTo):
             target = action.into_storage
+            self._check_constant_fits(action.value_expr, target)
             value = self._generate_code_for_int_expr(action.value_expr, ctx, target)
             result.add(f"state->c.{target.name} = {value};")
         elif isinstance(action, SetToStr):
@@ -6031,6 +6064,7 @@ class CodegenCtx:
                             raise IllegalDFAStateError("Default value is too long for output", out_expr)
                         contents.add(self._generate_set_string(out_expr.default_value, out_expr))
                     else:
+                        self._check_constant_fits(out_expr.default_value, out_expr)
                         contents.add(f"state->c.{out_expr.name} = {self._generate_code_for_int_expr(out_expr.default_value, IntegerExprUseContext.ASSIGN_INITIAL, out_expr)};")
 
             # Set starting state
